@@ -316,8 +316,13 @@ def step (st : Unit) (ws : List String) : Unit × String :=
   | ["conc", idx, _srv, chunk, _depth, n, rounds, L] => (st, conc idx chunk n rounds L)
   | ["many", idx, _srv, chunk, _depth, n, L] =>
     -- n streams live at once on one router, one pull from each, then each drained: per stream the same summary
+    -- every fifth stream (index ≡ 3 mod 5) that is not finished by its first pull is cancelled instead (`x`); the order in
+    -- which the streams are finished or cancelled does not matter (`C09.other_streams_untouched`)
     let r := concRound Gen.svsFacts (natOf chunk) (natOf n) (natOf L) 0
-    (st, joinSp ([idx, "many", if r.1 then "distinct" else "same"] ++ r.2))
+    let c := natOf chunk
+    let toks := (List.range r.2.length).zip r.2 |>.map fun (i, t) =>
+      if i % 5 == 3 && c != 0 && (natOf L + 3 * i) > c then "x" else t
+    (st, joinSp ([idx, "many", if r.1 then "distinct" else "same"] ++ toks))
   | ["duo", idx, _srv, kind, chunk, _depth, sa, ea, enda, sb, eb, endb, script, _auxa, _auxb] =>
     (st, duo idx kind chunk sa ea enda sb eb endb script)
   | _ :: idx :: _ => (st, idx ++ " bad-op")
